@@ -131,7 +131,11 @@ def _scratch_dir_with_distinct_job_ids(names):
 
 def e2e(argv_tail, files: dict[str, list[dict]], want_files=(), keep_dir=False):
     """Run the real Acelyzer API in-process.  `files`: name -> list of input events (written as
-    {"traceEvents": [...]}).  Returns dict(rc, error, events, other, outdir-files requested)."""
+    {"traceEvents": [...]}).  Returns dict(rc, error, events, other, outdir-files requested).
+    `post(ace)`: optional callback evaluated after a run that did not raise (e.g.
+    `lambda ace: ace.get_output_data()`); its value is returned as res["post"].
+    `out_name`: basename given to `-o`.  `in_dir`: run in this existing directory (never removed here)
+    instead of a fresh temporary one, so that two runs see identical input paths."""
     import aiu_trace_analyzer.logger as aiulog
     from aiu_trace_analyzer.core.acelyzer import Acelyzer
 
@@ -143,7 +147,7 @@ def e2e(argv_tail, files: dict[str, list[dict]], want_files=(), keep_dir=False):
             p = os.path.join(tmp, name)
             write_trace(p, evs)
             paths.append(p)
-        out = os.path.join(tmp, "out.json")
+        out = os.path.join(tmp, out_name)
         saved_argv = sys.argv
         sys.argv = ["acelyzer"]
         try:
